@@ -155,6 +155,9 @@ func alphaVal(v reflect.Value, o AlphaOpts) *Term {
 			} else {
 				t.S = append(t.S, nslot(tyName(f.Type), alphaVal(fv, o)))
 			}
+		case fv.Kind() == reflect.Slice && fv.IsNil() && st.Name() == "CaseClause" && f.Name == "List":
+			// "default:" - a clause without the keyword "case" - is not a "case" clause with an empty list
+			t.S = append(t.S, zslot(tyName(f.Type)))
 		case fv.Kind() == reflect.Slice:
 			l := []*Term{}
 			for j := 0; j < fv.Len(); j++ {
